@@ -166,7 +166,7 @@ def on_attr(p, r, exc, acc):
 
 # ------------------------------------------------------------------ defs written in the body of a call with content, reached through `caller`
 CALLDEF_FLAVOURS = {"plain": ("", "i"), "decorated": (' decorator="dec"', "<i>"), "buffered": (' buffered="True"', "i"), "filtered": (' filter="up"', "I"),
-                    "with-argument": ("", "i")}
+                    "with-argument": ("", "i"), "reads-a-context-variable-named-like-a-body-argument": ("", "iC")}
 CALLDEF_HEAD = """<%!
     def dec(fn):
         def decorate(context, *args, **kw):
@@ -178,6 +178,12 @@ CALLDEF_HEAD = """<%!
 
 
 def calldef_source(f):
+    if f["flavour"] == "reads-a-context-variable-named-like-a-body-argument":
+        # the body takes an argument z; the def written beside it reads the CALLING scope's z (the render argument)
+        inner = '<%def name="inner()">i${z}</%def>'
+        callee = '<%def name="w()">W[' + "".join("${caller.inner()}" for _ in range(f["times"])) + "|${caller.body(z='B')}]</%def>"
+        site = ('<%call expr="w()" args="z">' + inner + "body${z}</%call>") if f["form"] == "call-tag" else ('<%self:w args="z">' + inner + "body${z}</%self:w>")
+        return CALLDEF_HEAD + callee + "a" + site + "b"
     attrs, _out = CALLDEF_FLAVOURS[f["flavour"]]
     sig, arg = ("x", "'q'") if f["flavour"] == "with-argument" else ("", "")
     inner = '<%def name="inner(' + sig + ')"' + attrs + ">i</%def>"
@@ -190,12 +196,14 @@ def calldef_source(f):
 
 
 def calldef_expected(f):
+    if f["flavour"] == "reads-a-context-variable-named-like-a-body-argument":
+        return "aW[" + "iC" * f["times"] + "|bodyB]b"
     return "aW[" + CALLDEF_FLAVOURS[f["flavour"]][1] * f["times"] + "|body]b"
 
 
 def calldef_run(TPm, f):
     try:
-        return TPm.Template(calldef_source(f)).render().strip()
+        return TPm.Template(calldef_source(f)).render(z="C").strip()
     except Exception as e:
         return "raised %s: %s" % (type(e).__name__, str(e)[:80])
 
@@ -297,6 +305,8 @@ sys.exit(1 if bad else 0)
 
 
 def classify(c):
+    if ((c.get("input") or {}).get("calldef") or {}).get("flavour") == "reads-a-context-variable-named-like-a-body-argument":
+        return "C05-call-body-sibling-def-cannot-read-name-of-a-body-argument"
     return None
 
 
